@@ -4,13 +4,13 @@ import glob, json, os
 V = os.path.dirname(os.path.dirname(os.path.abspath(__file__)))
 out = open(os.path.join(V, "design_parts", "00_main.md")).read().rstrip() + "\n\n"
 out += "## 10. Seeded changes: which check catches which\n\n"
-out += ("Eighty changes to the library (two rounds, four per property) were written by fresh sub-agents that were given only the text of one property and a scratch\n"
+out += ("Ninety-two changes to the library (two rounds for every property, a third for C03 C04 C07 C09 C10 C14) were written by fresh sub-agents that were given only the text of one property and a scratch\n"
         "worktree (nothing from /verif). Each is kept under `/verif/seeded/<id>/` (patch.diff, demo.py, meta.json) and was confirmed\n"
         "in a scratch worktree: the repository tests give the same result with the change, the demonstration passes without and fails\n"
         "with it. `harness/seeded.py run` applies each change in a scratch worktree (never in /repo) and runs the listed checks with\n"
         "`AY_REPO=<worktree>`. After the `fix:` commits some changes no longer apply / manifest (noted); patches whose context moved were\n"
         "rebased by hand and confirmed again (`rebased` in meta.json, the delivered patch is kept as patch_original.diff). Where a change is\n"
-        "not caught by the check of the property it was written for, the check that does catch it is listed. Every change of round 2\n"
+        "not caught by the check of the property it was written for, the check that does catch it is listed. Every change of rounds 2 and 3\n"
         "that was missed at first led to an extension of a universe, a formula or the harness (sections 5/C01, C04, C06, C08, C10, C11, C14, C15, C17).\n\n")
 out += "| id | what it breaks / needs | confirmed on HEAD | detected by (quick tier) |\n|---|---|---|---|\n"
 for d in sorted(glob.glob(os.path.join(V, "seeded", "*"))):
